@@ -180,8 +180,19 @@ Definition outputs (g : graph) (k : N) : list file :=
   flat_map (fun d => if d_src d =? k then match find_file g (d_snk d) with Some f => [f] | None => [] end
                      else []) (g_deps g).
 Definition is_target (g : graph) (f : file) : bool := existsb (str_eqb (f_label f)) (g_targets g).
-Definition in_tdir (g : graph) (f : file) : bool :=
+(* byte-wise comparison of labels (SQLite BINARY collation) by a generated operator *)
+Definition str_cmp (c : cmpop) (a b : str) : bool :=
+  match c with
+  | CEq => str_eqb a b | CNe => negb (str_eqb a b)
+  | CLt => lex_lt a b | CLe => lex_le a b | CGt => lex_lt b a | CGe => lex_le b a
+  end.
+(* "under a named directory" by definition: the half-open range [path, upper) *)
+Definition in_tdir_half_open (g : graph) (f : file) : bool :=
   existsb (fun pu => lex_le (fst pu) (f_label f) && lex_lt (f_label f) (snd pu)) (g_tdirs g).
+(* the range as UPDATE_CHECK_AFTER has it (generated operators; C11_directory_range_is_half_open) *)
+Definition in_tdir (g : graph) (f : file) : bool :=
+  existsb (fun pu => str_cmp after_dir_lower (f_label f) (fst pu) && str_cmp after_dir_upper (f_label f) (snd pu))
+          (g_tdirs g).
 
 Definition elev (g : graph) (s : step) : N :=
   if existsb (fun f => regular_output f && is_target g f) (outputs g (s_key s)) then after_elev_target
@@ -681,7 +692,7 @@ Definition reconcile_exact (g : graph) : list N :=
                      | None => []
                      end) (g_targets g).
 Definition reconcile_dirs (g : graph) : list N :=
-  flat_map (fun f => if regular_output f && in_tdir g f then producers_of_node g (f_key f) else [])
+  flat_map (fun f => if regular_output f && in_tdir_half_open g f then producers_of_node g (f_key f) else [])
            (g_files g).
 Definition reconcile_keys (parts : bool * bool * bool) (g : graph) : list N :=
   (if fst (fst parts) then reconcile_stale g else [])
